@@ -29,10 +29,11 @@ FORBIDDEN = re.compile(r"\b(sorry|admit|native_decide|bv_decide|implemented_by|u
 TRUSTED_BASE = [
     "Lean 4.33.0 kernel (re-checked by leanchecker in the thorough tier)",
     "axioms allowed in property theorems: propext, Classical.choice, Quot.sound (audited with #print axioms on every run); no native_decide, no bv_decide, no sorry",
-    "tools/translate.py: transcribes enum/match/matches!/size tables of /repo/src into Shp/Gen/Tables.lean on every run (cross-checked against the executing crate by the correspondence)",
+    "tools/translate.py + `harness dump`: regenerate Shp/Gen/Tables.lean on every run — the table-like behaviour by EXECUTING the compiled crate (ShapeType::from on all 2^32 codes, every variant, patch kinds, size_in_bytes fitted and cross-checked), the few forms execution cannot show (size_of_record, the pre-allocation cap, the NO_DATA comparison, the writer's sentinels) by parsing /repo/src; a section that cannot be re-derived is listed under table_sections_tied_by_correspondence_only and widens the run",
     "hand-written Lean model Shp/Model/* of writer.rs, reader.rs, header.rs, record/*.rs: tied to the code by the differential correspondence (harness vs native driver) on every run",
     "harness (Rust, links /repo's working tree, overflow checks + debug assertions on) and tools/check.py: trusted to run the real code and compare honestly",
-    "modelled, not verified: std (Cursor/File/BufReader/BufWriter/read_exact/write_all/Vec), byteorder, dbase 0.6.1, geo-types 0.7, geo-traits 0.2, rustc; IEEE-754 comparison is modelled exactly on bit patterns; float arithmetic (shoelace) is an uninterpreted function in theorems and native Float in the driver",
+    "modelled, not verified: std (Cursor/File/BufReader/BufWriter/write_all/Vec; read_exact's default loop is transcribed and proved equivalent to the model's read primitive on every chunk schedule), byteorder, dbase 0.6.1, geo-types 0.7, geo-traits 0.2, rustc; IEEE-754 comparison is modelled exactly on bit patterns; float arithmetic (shoelace) is an uninterpreted function in theorems and native Float in the driver",
+    "model functions tied by a direct oracle only (no line-protocol verb): C10.writeShapes (bulk write), ChunkSrc.readExact",
 ]
 
 
